@@ -1,12 +1,12 @@
 #!/usr/bin/env python3
 """process_benign.py <prefix e.g. /tmp/benign> <ID>... : for each delivered property-preserving change
-(<prefix>-<ID>/<n>/patch.diff + meta.json) apply it to a scratch copy of /repo, run the quick check of that property
+(<prefix>-<ID>/<n>/patch.diff + meta.json; n from env BENIGN_NUMS, default "1 2 3") apply it to a scratch copy of /repo, run the quick check of that property
 with VERIF_REPO pointing there and record the outcome (expected: exit 0, no VIOLATION) under /verif/benign/<ID>-<n>/."""
 import json, os, shutil, subprocess, sys, tempfile, time
 V = os.path.dirname(os.path.dirname(os.path.abspath(__file__)))
 prefix = sys.argv[1]
 for pid in sys.argv[2:]:
-    for n in ("1", "2", "3"):
+    for n in os.environ.get("BENIGN_NUMS", "1 2 3").split():
         src = "%s-%s/%s" % (prefix, pid, n)
         if not os.path.exists(os.path.join(src, "patch.diff")):
             print("%s-%s: not delivered" % (pid, n)); continue
